@@ -310,4 +310,144 @@ theorem read_correct {db : Db} {s : Sess} (h : Coherent db s) (r : Read) :
         simp only [dbAnswer]
         rw [union_coll_eq hsd, canon_canon]
 
+/-! ### concrete loaders -/
+
+theorem coh_foldl {db : Db} (ls : List Load) : ∀ {s : Sess}, Coherent db s → Coherent db (ls.foldl (applyLoad db) s) := by
+  induction ls with
+  | nil => intro s h; exact h
+  | cons l rest ih => intro s h; exact ih (coh_applyLoad h l)
+
+theorem coh_applyLoader {db : Db} (sch : Schema) {s : Sess} (h : Coherent db s) (l : Loader) : Coherent db (applyLoader db sch s l) :=
+  coh_foldl _ h
+
+/-- a column value, once loaded, stays loaded -/
+theorem loadVal_mono (db : Db) (s : Sess) (o' : Oid) (a' : Attr) (o : Oid) (a : Attr) (h : s.vals o a ≠ none) :
+    (loadVal db s o' a').vals o a ≠ none := by
+  unfold loadVal
+  split
+  · exact h
+  · simp only [setVal]
+    split
+    · simp
+    · exact h
+
+theorem loadVals_mono (db : Db) (t : List (Oid × Attr)) : ∀ (s : Sess) (o : Oid) (a : Attr), s.vals o a ≠ none → (loadVals db s t).vals o a ≠ none := by
+  induction t with
+  | nil => intro s o a h; exact h
+  | cons x rest ih =>
+    intro s o a h
+    obtain ⟨o', a'⟩ := x
+    exact ih _ o a (loadVal_mono db s o' a' o a h)
+
+theorem loadVals_sets (db : Db) (t : List (Oid × Attr)) : ∀ (s : Sess) (o : Oid) (a : Attr), (o, a) ∈ t → (loadVals db s t).vals o a ≠ none := by
+  induction t with
+  | nil => intro s o a h; cases h
+  | cons x rest ih =>
+    intro s o a h
+    obtain ⟨o', a'⟩ := x
+    rcases List.mem_cons.mp h with heq | h'
+    · simp only [Prod.mk.injEq] at heq
+      obtain ⟨rfl, rfl⟩ := heq
+      simp only [loadVals]
+      apply loadVals_mono
+      unfold loadVal
+      cases hv : s.vals o a with
+      | some v => simp [hv]
+      | none => simp [setVal]
+    · exact ih _ o a h'
+
+theorem vals_mono_load (db : Db) (s : Sess) (l : Load) (o : Oid) (a : Attr) (h : s.vals o a ≠ none) : (applyLoad db s l).vals o a ≠ none := by
+  cases l with
+  | vals t => exact loadVals_mono db t s o a h
+  | items o' c is => simpa [applyLoad, addItems, setSet] using h
+  | coll o' c => simpa [applyLoad, loadColl, setSet] using h
+  | count o' c => simpa [applyLoad, setCount, setSet] using h
+  | absent o' c i =>
+    simp only [applyLoad, addAbsent]
+    split
+    · exact h
+    · simpa [setSet] using h
+
+theorem vals_mono_foldl (db : Db) (ls : List Load) : ∀ (s : Sess) (o : Oid) (a : Attr), s.vals o a ≠ none → (ls.foldl (applyLoad db) s).vals o a ≠ none := by
+  induction ls with
+  | nil => intro s o a h; exact h
+  | cons l rest ih => intro s o a h; exact ih _ o a (vals_mono_load db s l o a h)
+
+theorem vals_set_foldl (db : Db) (ls : List Load) (t : List (Oid × Attr)) (o : Oid) (a : Attr) (hm : Load.vals t ∈ ls) (hin : (o, a) ∈ t) :
+    ∀ s : Sess, (ls.foldl (applyLoad db) s).vals o a ≠ none := by
+  induction ls with
+  | nil => cases hm
+  | cons l rest ih =>
+    intro s
+    rcases List.mem_cons.mp hm with heq | h'
+    · subst heq
+      exact vals_mono_foldl db rest _ o a (loadVals_sets db t s o a hin)
+    · exact ih h' _
+
+/-- a collection is fully loaded and its count is known -/
+def FullLoaded (s : Sess) (w : Oid) (c : Attr) : Prop := ∃ sd, s.sets w c = some sd ∧ sd.full = true ∧ sd.count ≠ none
+
+theorem full_of_setSet_other (s : Sess) (o' : Oid) (c' : Attr) (sd' : SetData) (w : Oid) (c : Attr) (hne : ¬ (w = o' ∧ c = c'))
+    (h : FullLoaded s w c) : FullLoaded (setSet s o' c' sd') w c := by
+  obtain ⟨sd, h1, h2, h3⟩ := h
+  exact ⟨sd, by simp [setSet, hne, h1], h2, h3⟩
+
+theorem full_of_setSet_self (s : Sess) (w : Oid) (c : Attr) (sd' : SetData) (hf : sd'.full = true) (hc : sd'.count ≠ none) :
+    FullLoaded (setSet s w c sd') w c := ⟨sd', by simp [setSet], hf, hc⟩
+
+theorem full_mono_load (db : Db) (s : Sess) (l : Load) (w : Oid) (c : Attr) (h : FullLoaded s w c) : FullLoaded (applyLoad db s l) w c := by
+  obtain ⟨sd, h1, h2, h3⟩ := h
+  cases l with
+  | vals t =>
+    have : ∀ (t : List (Oid × Attr)) (s : Sess), (loadVals db s t).sets = s.sets := by
+      intro t
+      induction t with
+      | nil => intro s; rfl
+      | cons x rest ih =>
+        intro s
+        obtain ⟨o', a'⟩ := x
+        simp only [loadVals]
+        rw [ih]
+        unfold loadVal
+        split <;> rfl
+    exact ⟨sd, by simp [applyLoad, this, h1], h2, h3⟩
+  | items o' c' is =>
+    by_cases he : w = o' ∧ c = c'
+    · obtain ⟨rfl, rfl⟩ := he
+      exact full_of_setSet_self _ _ _ _ (by simp [getSet, h1, h2]) (by simp [getSet, h1, h3])
+    · exact full_of_setSet_other s o' c' _ w c he ⟨sd, h1, h2, h3⟩
+  | coll o' c' =>
+    by_cases he : w = o' ∧ c = c'
+    · obtain ⟨rfl, rfl⟩ := he
+      exact full_of_setSet_self _ _ _ _ rfl (by simp)
+    · exact full_of_setSet_other s o' c' _ w c he ⟨sd, h1, h2, h3⟩
+  | count o' c' =>
+    by_cases he : w = o' ∧ c = c'
+    · obtain ⟨rfl, rfl⟩ := he
+      exact full_of_setSet_self _ _ _ _ (by simp [getSet, h1, h2]) (by simp)
+    · exact full_of_setSet_other s o' c' _ w c he ⟨sd, h1, h2, h3⟩
+  | absent o' c' i =>
+    simp only [applyLoad, addAbsent]
+    split
+    · exact ⟨sd, h1, h2, h3⟩
+    · by_cases he : w = o' ∧ c = c'
+      · obtain ⟨rfl, rfl⟩ := he
+        exact full_of_setSet_self _ _ _ _ (by simp [getSet, h1, h2]) (by simp [getSet, h1, h3])
+      · exact full_of_setSet_other s o' c' _ w c he ⟨sd, h1, h2, h3⟩
+
+theorem full_mono_foldl (db : Db) (ls : List Load) : ∀ (s : Sess) (w : Oid) (c : Attr), FullLoaded s w c → FullLoaded (ls.foldl (applyLoad db) s) w c := by
+  induction ls with
+  | nil => intro s w c h; exact h
+  | cons l rest ih => intro s w c h; exact ih _ w c (full_mono_load db s l w c h)
+
+theorem full_set_foldl (db : Db) (ls : List Load) (w : Oid) (c : Attr) (hm : Load.coll w c ∈ ls) : ∀ s : Sess, FullLoaded (ls.foldl (applyLoad db) s) w c := by
+  induction ls with
+  | nil => cases hm
+  | cons l rest ih =>
+    intro s
+    rcases List.mem_cons.mp hm with heq | h'
+    · subst heq
+      exact full_mono_foldl db rest _ w c (full_of_setSet_self _ _ _ _ rfl (by simp))
+    · exact ih h' _
+
 end PonyVerif.Model.Loading
